@@ -16,7 +16,7 @@ CONSTANTS TraceFile, Props, MaxViol
 VARIABLES l, gs, viol, drift, cnt
 Trace == ndJsonDeserialize(TraceFile)
 N2(name, holds) == IF holds THEN {} ELSE {name}
-SameErr(a, b) == a = b
+SameErr(a, b) == (a = "") <=> (b = "")     \* accepted by both or refused by both (the wording of an error may differ)
 Bad(ln) ==
   LET m == ToGs(ln.M, ln.deckM)  m2 == ToGs(ln.M2, ln.deckM)  j == ToGs(ln.J, ln.deckJ)  b == ToGs(ln.B, ln.deckB) IN
   N2("C07.rehydratedEqualsInMemory", j = m /\ ln.rawEqMJ) \cup
